@@ -198,7 +198,7 @@ CFG = {
         "go_krovak_inv_eq_js", "go_aeaPhi1z_eq_js",
         # (A) datum.go / datum_transform.go = datum.js / datum_transform.js
         "go_geodetic_to_geocentric_eq_js", "go_geocentric_to_geodetic_eq_js", "go_geocentric_to_wgs84_eq_js",
-        "go_geocentric_from_wgs84_eq_js", "go_compare_datums_eq_js", "go_datum_eq_js", "go_datum_eq_js_any",
+        "go_geocentric_from_wgs84_eq_js", "go_compare_datums_eq_js", "go_checkDatumParams_eq_js", "go_datum_eq_js", "go_datum_eq_js_any",
         # (A) transform.go closure = transform.js, given stage-wise equality
         "go_pipeline_core_eq_js", "twoHop_same", "go_pipeline_eq_js", "stage_of", "js_forward_keeps_z", "js_inverse_keeps_z",
         # (A) constructors: constants computed by the Go constructor = those of the proj4js init
@@ -220,7 +220,7 @@ CFG = {
     "trusted_base": [
         "Lean 4.33.0 kernel; axioms of every theorem printed by #print axioms must be within {propext, Classical.choice, Quot.sound}",
         "T1 extractor harness/cmd/c09/extract (go/ast + go/types constant folding; regex over the proj4js object literals): "
-        "regenerates Gen/GoCommon.lean, Gen/GoProj.lean (closures of merc/lcc/aea/eqdc/tmerc/krovak, the constructor bodies of Merc/LCC/AEA/EqdC/TMerc/UTM/Krovak, aeaPhi1z, datum.go methods) and Gen/Tables.lean from the current sources on every run",
+        "regenerates Gen/GoCommon.lean, Gen/GoProj.lean (closures of merc/lcc/aea/eqdc/tmerc/krovak, the constructor bodies of Merc/LCC/AEA/EqdC/TMerc/UTM/Krovak, aeaPhi1z, datum.go methods incl. compare_datums, checkDatumParams of datum_transform.go) and Gen/Tables.lean from the current sources on every run",
         "hand models Model.lean (Go port) and Js.lean (proj4js) are tied by the correspondence run: Go vs Model to 1e-6 m, "
         "Go vs Js to 0.1 mm, Go vs Spec.Ref to 5 mm on every generated case; Js.lean is additionally cross-checked against the "
         "vendored JavaScript run by node when node is present",
